@@ -64,3 +64,37 @@ func TestDbgC05(t *testing.T) {
 		}
 	}
 }
+
+// TestDbgNextMsg: does an unread remainder of a record survive into the next connection when the
+// same NoiseGrpcConn object performs the next handshake (as a gRPC credentials object does)?
+func TestDbgNextMsg(t *testing.T) {
+	if os.Getenv("VERIF_DBG") != "nextmsg" {
+		t.Skip()
+	}
+	relay := NewFakeRelay()
+	st, err := NewStack(relay, 77)
+	if err != nil {
+		t.Fatal(err)
+	}
+	defer st.Shutdown()
+	st.ReuseNoise = true
+	srv, cli := st.Connect()
+	if srv.Err != nil || cli.Err != nil {
+		t.Fatal(srv.Err, cli.Err)
+	}
+	msg := patterned(100, 1)
+	go cli.Conn.Write(msg)
+	buf := make([]byte, 10)
+	n, err := srv.Conn.Read(buf)
+	fmt.Printf("first connection: read %d bytes err=%v\n", n, err)
+	cli.Mailbox.Close()
+	srv.Mailbox.Close()
+	srv, cli = st.Connect()
+	if srv.Err != nil || cli.Err != nil {
+		t.Fatal(srv.Err, cli.Err)
+	}
+	go cli.Conn.Write([]byte("hello"))
+	big := make([]byte, 1000)
+	n, err = srv.Conn.Read(big)
+	fmt.Printf("second connection: read %d bytes err=%v first bytes %x (stale remainder would be %x)\n", n, err, big[:min(n, 8)], msg[10:18])
+}
